@@ -230,11 +230,17 @@ class C03C04(Monitor):
                         self.bad("duplicate_result", "more than one result entry for a job",
                                  f"{label}: {n} x{len(lst)}", "C03")
                 for n in sc.names:
+                    if ref[n] in ("missing", "canceled_or_missing"):
+                        # on or behind a dependency cycle: blocks forever, must end up missing (C12)
+                        if n in by and state.classify(by[n][0]) != "canceled":
+                            self.bad("result_for_stuck_job", "a job behind a dependency cycle has a finished result",
+                                     f"{label}: {n}", "C03")
+                        continue
                     if n not in by:
                         self.bad("missing_result", "completed without faults but a job has no result entry",
                                  f"{label}: {n} (reference says {ref[n]})", "C03")
             for n in sc.names:
-                if n not in by:
+                if n not in by or ref[n] in ("missing", "canceled_or_missing"):
                     continue
                 r = by[n][0]
                 got = state.classify(r)
@@ -261,7 +267,9 @@ class C03C04(Monitor):
                         elif launches != 1:
                             self.bad("not_run_once", "job that must run was not started exactly once",
                                      f"{n}: {launches} launches", "C04")
-        if "C03" in self.props and rj.get("missing_jobs"):
+        stuck = sorted(n for n in sc.names if ref[n] in ("missing", "canceled_or_missing"))
+        if "C03" in self.props and sorted(rj.get("missing_jobs", [])) != sorted(
+                n for n in stuck if n not in {r["name"] for r in rj.get("results", [])}):
             self.bad("missing_jobs_nonempty", "completed without faults but missing_jobs is not empty",
                      f"{rj.get('missing_jobs')}", "C03")
 
@@ -802,6 +810,7 @@ class C18World(Monitor):
         super().__init__(ctx)
         self.last_squeue = {}   # root vp id -> rows of last full squeue
         self.ids_before = {}
+        self.garbage = []
 
     def on_record(self, rec):
         seq, vt, kind, vpid, d = rec
@@ -841,6 +850,26 @@ class C18World(Monitor):
                              f"id {i} listed as {st} by squeue but dropped from active ids by {w.vprocs[vpid].role}")
         elif kind == "sbatch" and d.get("why") == "garbage":
             w.probe("sbatch_garbage")
+            sub = self.ctx.sub_for_path(d.get("output"))
+            if sub is not None:
+                self.garbage.append((sub, sub.epoch, list(d.get("jobs", [])), d.get("batch")))
+
+    def finish(self):
+        # an unparsable submit response is a failed submission: its jobs never ran
+        for sub, ep, jobs, n in self.garbage:
+            for j in jobs:
+                other = [b for b in sub.batches if b["epoch"] == ep and j in b["jobs"] and b["n"] != n and b["ok"]]
+                if not other and sub.launches_in_epoch(j, ep):
+                    self.bad("garbage_response_ran", "jobs of a batch whose submit response was unparsable were started",
+                             f"batch {n}: {j}")
+        for sub in self.ctx.subs.values():
+            try:
+                _, js = state.read_status(sub.out)
+            except state.Unparsable:
+                continue
+            for i in (js or {}).get("hpc_job_ids", []):
+                if not str(i).isdigit():
+                    self.bad("bogus_job_id", "a non-numeric HPC job id was recorded", f"{i!r}")
 
     def on_status(self, sub, o):
         # forced completion must not happen while SimSlurm holds an unfinished batch
